@@ -40,10 +40,13 @@ def view : Except Err Tree → Err ⊕ List (Nat × Str × Str)
   | .error e => .inl e
   | .ok t => .inr (t.terminals.map fun l => (l.num, l.fields.word.getD [], l.fields.label))
 
-/-- `Except` as a sum (which has decidable equality) -/
-def toSum {α} : Except Err α → Err ⊕ α
+/-- stepping stone for instance search (the full search exceeds the default size bound) -/
+local instance rowDecEq : DecidableEq (List (Nat × Nat × Str × Str)) := inferInstance
+
+/-- a decidable view of a loaded table: the error, or the rows (sid, index, word, tag or "") -/
+def tview : Except Err TermTable → Err ⊕ List (Nat × Nat × Str × Str)
   | .error e => .inl e
-  | .ok a => .inr a
+  | .ok tbl => .inr (tbl.flatMap fun (sid, es) => es.map fun (k, w, p) => (sid, k, w, p.getD []))
 
 /-! ### the cache protocol -/
 
@@ -71,6 +74,13 @@ theorem loadTable_result (needPos : Bool) (fs : Str → Option Str) (st : Loaded
 /-- a state whose substitute cache holds `t1`: loading `t1` again, or another file, gives what a fresh process gives -/
 example : CacheOK false exFs (loadTable false exFs .absent "t1".toList).2 :=
   (loadTable_result false exFs .absent "t1".toList trivial).2
+
+example : tview (loadTable false exFs (loadTable false exFs .absent "t1".toList).2 "t1".toList).1 =
+      .inr [(1, 2, "dog".toList, "N".toList), (1, 1, "the".toList, "D".toList), (2, 1, "it".toList, [])] ∧
+    tview (loadTable false exFs (loadTable false exFs .absent "t1".toList).2 "short".toList).1 =
+      .inr [(1, 1, "a".toList, [])] ∧
+    tview (loadTable true exFs .absent "short".toList).1 = .inl .indexError ∧
+    tview (loadTable false exFs .absent "nofile".toList).1 = .inl .other := by decide +kernel
 
 /-- one call: same result from any reachable state as from the initial state, and the state stays consistent -/
 theorem call_history_independent (fs : Str → Option Str) (st : ProcState) (c : Call) (h : StateOK fs st) :
@@ -112,6 +122,20 @@ theorem history_independent (fs : Str → Option Str) (cs : List Call) :
 
 example : runHistory exFs {} exHist = exHist.map fun c => (c.run exFs {}).1 := history_independent exFs exHist
 
+/-- the example history, evaluated: both `dup` calls raise `ValueError`, the last call repeats the first result -/
+example : (runHistory exFs {} exHist).map view =
+    [.inr [(1, "the".toList, "D".toList), (2, "dog".toList, "N".toList)],
+     .inr [(1, "a".toList, "A".toList), (2, "b".toList, "B".toList), (3, "now".toList, "ADV".toList)],
+     .inl .valueError, .inl .valueError,
+     .inr [(1, "the".toList, "D".toList), (2, "dog".toList, "N".toList)]] := by decide +kernel
+
+/-- and call by call in a fresh process -/
+example : (exHist.map fun c => view (c.run exFs {}).1) =
+    [.inr [(1, "the".toList, "D".toList), (2, "dog".toList, "N".toList)],
+     .inr [(1, "a".toList, "A".toList), (2, "b".toList, "B".toList), (3, "now".toList, "ADV".toList)],
+     .inl .valueError, .inl .valueError,
+     .inr [(1, "the".toList, "D".toList), (2, "dog".toList, "N".toList)]] := by decide +kernel
+
 
 /-- a failed load leaves no trace (the repaired behaviour): a retry gives the same error -/
 theorem failed_load_retry (needPos : Bool) (fs : Str → Option Str) (st : Loaded) (fn : Str) (e : Err)
@@ -120,6 +144,11 @@ theorem failed_load_retry (needPos : Bool) (fs : Str → Option Str) (st : Loade
   obtain ⟨h1, h2⟩ := loadTable_result needPos fs st fn hst
   obtain ⟨h3, _⟩ := loadTable_result needPos fs _ fn h2
   rw [h3, ← h1, h]
+
+/-- the failing load of `dup` from a state that has `t1` cached -/
+example : tview (loadTable false exFs (.ok "t1".toList []) "dup".toList).1 = .inl .valueError ∧
+    tview (loadTable false exFs (loadTable false exFs (.ok "t1".toList []) "dup".toList).2 "dup".toList).1 =
+      .inl .valueError := by decide +kernel
 
 
 /-- a failed load leaves the cache empty -/
@@ -174,6 +203,16 @@ def exU : Tree :=
   node { label := "NP".toList }
     [leaf 1 { label := "N".toList, word := some "it".toList }, leaf 2 { label := "ADV".toList, word := some "now".toList }]
 
+example : gramCount (extractAll ([TT.Props.C06.exT] ++ [exU, TT.Props.C06.exT])).1
+      TT.Props.C06.exF TT.Props.C06.exL (.ctx ["S2".toList]) = 2 ∧
+    gramCount (extractAll [TT.Props.C06.exT]).1 TT.Props.C06.exF TT.Props.C06.exL (.ctx ["S2".toList]) = 1 ∧
+    gramCount (extractAll [exU, TT.Props.C06.exT]).1 TT.Props.C06.exF TT.Props.C06.exL (.ctx ["S2".toList]) = 1 := by
+  decide
+
+example : lexCount (extractAll ([TT.Props.C06.exT] ++ [exU, TT.Props.C06.exT])).2 "it".toList "N".toList = 5 ∧
+    lexCount (extractAll [TT.Props.C06.exT]).2 "it".toList "N".toList = 2 ∧
+    lexCount (extractAll [exU, TT.Props.C06.exT]).2 "it".toList "N".toList = 3 := by decide
+
 
 /-! ### statistics of a concatenation -/
 
@@ -183,6 +222,9 @@ theorem gapstats_append (s : GapStats) (ts us : List Tree) :
     GapStats.total (ts.foldl GapStats.run s).perTree = GapStats.total s.perTree + ts.length := by
   rw [List.foldl_append, foldl_run_perTree_total us, foldl_run_perTree_total ts]
   exact ⟨rfl, rfl⟩
+
+example : ([TT.Props.C06.exT, exU] ++ [TT.Props.C06.exT]).foldl GapStats.run {} =
+    { perNode := [(1, 4), (0, 3)], perTree := [(1, 2), (0, 1)] } := by decide +kernel
 
 
 /-! ### the export reader is sentence local -/
@@ -327,8 +369,54 @@ def ids : Except Err (List (Nat × Tree)) → Err ⊕ List (Nat × Nat)
   | .error e => .inl e
   | .ok r => .inr (r.map fun p => (p.1, p.2.leafNums.length))
 
+example : Complete (lines exA) ∧ sentences (lines exA) = 2 := by decide +kernel
+
+/-- an unfinished sentence is not complete -/
+example : ¬ Complete (lines "#BOS 1\nit\t--\tN\t--\tHD\t0\n".toList) := by decide +kernel
+
+example : ids (readExport {} exA) = .inr [(7, 2), (9, 1)] ∧ ids (readExport {} exB) = .inr [(3, 1)] ∧
+    ids (readExport {} (exA ++ '\n' :: exB)) = .inr [(7, 2), (9, 1), (3, 1)] := by decide +kernel
+
 example : ids (readExport { continuous := true } exA) = .inr [(1, 2), (2, 1)] ∧
     ids (readExport { continuous := true } exB) = .inr [(1, 1)] ∧
-    ids (readExport { continuous := true } (exA ++ '\n' :: exB)) = .inr [(1, 2), (2, 1), (3, 1)] := by decide
+    ids (readExport { continuous := true } (exA ++ '\n' :: exB)) = .inr [(1, 2), (2, 1), (3, 1)] := by decide +kernel
+
+/-- the hypotheses of `readExport_append` are met by the example texts -/
+example : readExport {} (exA ++ '\n' :: exB) =
+    match readExport {} exA, readExport {} exB with
+    | .error e, _ => .error e
+    | .ok _, .error e => .error e
+    | .ok ra, .ok rb => .ok (ra ++ rb.map (renum {} (sentences (lines exA)))) :=
+  readExport_append {} exA exB (by decide +kernel)
+example : Complete (lines exA) := by decide +kernel
+example : Complete (lines (exA ++ ['\n'])) := complete_newline exA (by decide +kernel)
+
+/-- `Complete` cannot be dropped: the prefix `#BOS 1` alone is read without error (and without a tree), but in front of
+    `exB` it swallows the next `#BOS` line into its body and the sentence fails to parse -/
+example : ids (exportLoop {} ["#BOS 1".toList] none 1 []) = .inr [] ∧
+    ids (exportLoop {} (["#BOS 1".toList] ++ lines exB) none 1 []) = .inl .indexError ∧
+    ids (exportLoop {} (lines exB) none 1 []) = .inr [(3, 1)] := by decide +kernel
+
+/-
+  Status of the statements of the brief.
+
+  * `loadTable_result`, `call_history_independent`, `history_independent`, `failed_load_retry`,
+    `extract_append_counts`, `extract_append_lex`, `gapstats_append`: proved with exactly the given statements.
+  * `exportLoop_append` was given in a deliberately loose form (conclusion `∃ tc', ... ∨ True`, hypothesis
+    `hcomplete : True`).  It is replaced by
+      - `Complete a` := no sentence is open after the lines `a` (`openAfter false a = false`, decidable),
+      - `sentences a` := number of `#BOS ... #EOS` groups closed in `a`,
+      - `exportLoop_append`: from `exportLoop o a none tc acc = .ok ra` and `Complete a`:
+          `exportLoop o (a ++ b) none tc acc = exportLoop o b none (tc + sentences a) ra.reverse ∧
+           ra.length = acc.length + sentences a`,
+      - `exportLoop_append_results` / `exportLoop_append_renum`: without assuming that `a` reads successfully, the result
+        of `a ++ b` is the result of `a` followed by the result of `b` (ids shifted by `sentences a` with `continuous`),
+        errors of `a` first,
+      - `exportLoop_append_general`: for ARBITRARY `a` (complete or not, any start state) the reader continues on `b`
+        from the state `exportScan o a ...` reached after `a`,
+      - `readExport_append`, `readExport_append_nl`, `readExport_newline`, `readExport_append_ids`: the corollaries for
+        texts (`a ++ "\n" ++ b`, `a` complete).
+    Nothing is left unproved.
+-/
 
 end TT.Props.C18
